@@ -181,7 +181,8 @@ def harness(case, tier):
             for q in g.queued:
                 n = sum(1 for f in g.finished_tx if bool(f == q))
                 c.prove(n == 1, 'exactly-one-finished-signal-at-graceful-end', detail=dict(side=side, bid=q, n=n))
-        if ev == 'none':
-            c.prove(h.is_sess_idle(), 'idle-after-drain', detail=dict(side=side))
+        # (with an injected refusal the other side may keep an abandoned inbound transfer: only A is judged)
+        if (ev == 'none' or (ev == 'refuse' and side == 'A')) and not esc and h._in_sess and not h._in_term:
+            c.prove(h.is_sess_idle(), 'idle-after-drain[%s]' % ev, detail=dict(side=side))
     return {'class': 'plain' if ev == 'none' else 'event',
             'signals': [(n, a) for (n, a) in w.signals() if 'finished' in n or 'started' in n]}
